@@ -1041,10 +1041,14 @@ def check(ctx):
         if 'characters' in lc[lang]:
             for cset in others:
                 payloads.append((lang, 'characters', lc[lang]['characters'], cset))
-    outs = common.pmap('harness.c20', 'unrep_case', payloads, per_case_timeout=120)
+    outs = common.pmap('harness.c20', 'unrep_case', payloads, per_case_timeout=30)
     good = [(p, o) for p, o in zip(payloads, outs) if not isinstance(o, str)]
     for p, o in zip(payloads, outs):
-        if isinstance(o, str):
+        if o == 'timeout':
+            # totality: encoding the listed characters one by one / the check itself must terminate (C20_iconv_* theorems: at most two doublings)
+            ctx.fail('unrepresentable-hang', {'language': p[0], 'charset': p[3], 'characters': ''.join(x for x in p[2] if isinstance(x, str))[:80]},
+                     'encoding the characters listed for the language in this charset (one by one and joined) and running get_unrepresentable_characters did not finish within 30 s')
+        elif isinstance(o, str):
             ctx.disagree('unrepresentable', {'language': p[0], 'charset': p[3]}, 'completed', o)
     model = common.run_driver([o[0] for _, o in good])
     ctx.evaluations += len(good)
